@@ -13,8 +13,12 @@ that pooled searchers are reused; after every action the id of every known serie
 of a sequence is compared on all production entry points (SHOW path ids and keys, SELECT path alone / every leaf alone /
 again in sequence order, Engine.SeriesKeys / TagKeys / TagValues with the condition) with the specification's set.
 A divergence is attributed to an open finding only if the real result equals the prediction of that finding's
-deviation model (computed by the specification per subset of deviation classes); anything else is a VIOLATION."""
-import json, os, random, time
+deviation model (computed by the specification per subset of the OPEN deviation classes); anything else is a VIOLATION.
+The deviation models of REPAIRED findings stay: the classes are mutation seeds TLC must refute, and the specification
+predicts per subset holding a repaired class what the code would answer without the repair (Regressions): a real
+result equal to one of them - and to nothing an open finding predicts - is a VIOLATION naming the repaired finding.
+Which classes are open is read from known_findings.json (CLASS_FINDING) and handed to TLC as the constant OpenClasses."""
+import json, os, random, re, shutil, time
 import concurrent.futures as cf
 import vlib
 
@@ -28,6 +32,9 @@ DEVS_QUICK = [("neq_absent_nonmatch", None), ("S", None), ("stale_allmatch_flag"
 MODE_A = ("exh", "sets", "rows", "sets_deep", "sets_full")
 NSIM = 3
 EXPORTS = ("bfs_export", "script_export", "big_export") + tuple(f"sim{i}" for i in range(NSIM))
+# deviation classes of SeriesIndex.tla (as-implemented regex pipeline of tag_filters.go / search.go) -> finding id; a
+# class is OPEN (constant OpenClasses of the cfg handed to TLC) iff its finding is an open entry of known_findings.json
+CLASS_FINDING = {"S": "F-C10-1", "L": "F-C10-2", "E": "F-C10-3", "N": "F-C10-4", "C": "F-C10-5"}
 # the replay runs every behaviour in a process with ONE P: sync.Pool then hands the searcher object that served a
 # search to the next search of the sequence (pooled state really is reused), and a saved replay is deterministic
 VH_ENV = {"GOMAXPROCS": "1"}
@@ -59,11 +66,44 @@ def _tlc_jobs(tier, seed):
     return jobs, nsim
 
 
-def _run_job(name, kw):
+def open_classes():
+    """deviation classes whose finding is still open"""
+    open_ids = {f["id"] for f in vlib.load_known(PROP)}
+    return sorted(c for c, f in CLASS_FINDING.items() if f in open_ids)
+
+
+def fixed_findings():
+    """finding id -> fix commit of the `fixed: property=C10 <commit> <F-id> <what>` entries of known_findings.json"""
+    p = os.path.join(vlib.ROOT, "known_findings.json")
+    out = {}
+    for t in json.load(open(p)).get("fixed", []):
+        m = re.match(r"fixed: property=%s (\S+) (F-\S+)" % PROP, t)
+        if m:
+            out[m.group(2)] = m.group(1)
+    return out
+
+
+def _cfg_dir(classes):
+    """copies of the SeriesIndex cfg files with the constant OpenClasses set to the classes of the open findings"""
+    d = vlib.scratch("c10cfg")
+    src = os.path.join(vlib.SPECS, "cfg")
+    val = "{" + ", ".join('"%s"' % c for c in classes) + "}"
+    for f in os.listdir(src):
+        if not (f.startswith("SeriesIndex.") and f.endswith(".cfg")):
+            continue
+        txt, n = re.subn(r"^(\s*)OpenClasses\s*=.*$", lambda m: m.group(1) + "OpenClasses = " + val, open(os.path.join(src, f)).read(), flags=re.M)
+        if n != 1:
+            shutil.rmtree(d, ignore_errors=True)
+            raise vlib.Infra(f"{f}: exactly one line 'OpenClasses = ...' expected, found {n}")
+        open(os.path.join(d, f), "w").write(txt)
+    return d
+
+
+def _run_job(name, kw, cfgdir):
     kw = dict(kw)
     kw.pop("expect", None)
     cfg = kw.pop("cfg")
-    return vlib.run_tlc("SeriesIndexMC", cfg, **kw)
+    return vlib.run_tlc("SeriesIndexMC", os.path.join(cfgdir, cfg), **kw)
 
 
 def _check_job(name, kw, r, stats):
@@ -90,9 +130,11 @@ class _Gen:
         os.environ.setdefault("JAVA_TOOL_OPTIONS", "-Xmx4g")
         self.tier, self.seed = tier, seed
         self.jobs, self.nsim = _tlc_jobs(tier, seed)
-        self.stats = {"deviations_refuted": {}}
+        self.open_classes = open_classes()
+        self.cfgdir = _cfg_dir(self.open_classes)
+        self.stats = {"deviations_refuted": {}, "open_classes": self.open_classes}
         self.pool = cf.ThreadPoolExecutor(5)
-        self.futs = [(n, kw, self.pool.submit(_run_job, n, kw)) for n, kw in self.jobs]
+        self.futs = [(n, kw, self.pool.submit(_run_job, n, kw, self.cfgdir)) for n, kw in self.jobs]
 
     def behaviours(self):
         thorough = self.tier == "thorough"
@@ -130,10 +172,13 @@ class _Gen:
                 _check_job(n, kw, f.result(), self.stats)
         finally:
             self.pool.shutdown(wait=False, cancel_futures=True)
+            shutil.rmtree(self.cfgdir, ignore_errors=True)
         return self.stats
 
     def abort(self):
         self.pool.shutdown(wait=False, cancel_futures=True)
+        # jobs still running read their cfg at start-up only; queued ones were cancelled
+        shutil.rmtree(self.cfgdir, ignore_errors=True)
 
 
 def gen_behaviours(tier, seed):
@@ -197,8 +242,12 @@ def run(tier, seed):
         raise vlib.Infra(f"harness infra error: {infra[0]}")
     bad = [r for r in results if not r["ok"]]
     open_ids = {f["id"] for f in vlib.load_known(PROP)}
+    fixed = fixed_findings()
     known_n, known_ex, known_cases = {}, {}, 0
+    regress = {}
     for r in results:
+        for kid in r.get("regress") or []:      # the harness matched the deviation model of a repaired class
+            regress[kid] = regress.get(kid, 0) + 1
         kn = r.get("known_n") or {}
         if kn:
             known_cases += 1
@@ -206,13 +255,23 @@ def run(tier, seed):
             if kid not in open_ids:          # attributed to something that is not a listed open finding
                 if r["ok"]:
                     r["ok"] = False
-                    r["detail"] = f"divergence attributed to {kid}, which is not an open finding: " + r["known_ex"][kid]
+                    if kid in fixed:
+                        regress[kid] = regress.get(kid, 0) + 1
+                        r["detail"] = (f"REGRESSION of the repaired finding {kid} (fixed by {fixed[kid]}): the real result equals "
+                                       f"the prediction of its deviation model: " + r["known_ex"][kid])
+                    else:
+                        r["detail"] = f"divergence attributed to {kid}, which is not an open finding: " + r["known_ex"][kid]
                     bad.append(r)
                 continue
             known_n[kid] = known_n.get(kid, 0) + n
             known_ex.setdefault(kid, r["known_ex"][kid])
     for kid in sorted(known_n):
         print(f"KNOWN-FINDING: property={PROP} {kid} re-observed {known_n[kid]} times, e.g. {known_ex[kid][:420]}")
+    # violations that name a repaired finding first: they say which repair was lost
+    bad.sort(key=lambda r: (not ((r.get("regress") or []) or "REGRESSION" in (r.get("detail") or "")), r["id"]))
+    for kid in sorted(regress):
+        vlib.log(f"[c10] REGRESSION property={PROP} {kid} (listed as fixed{' by ' + fixed[kid] if kid in fixed else ''}): "
+                 f"{regress[kid]} behaviours give exactly the answer its deviation model predicts (was the repair lost?)")
     byid = {c["id"]: c for c in cases}
     for r in bad[:5]:
         path = vlib.save_replay(PROP, {"case": byid[r["id"]], "result": r})
@@ -245,6 +304,8 @@ def run(tier, seed):
         "distinct_behaviours": distinct,
         "known_finding_behaviours": known_cases,
         "known_finding_counts": known_n,
+        "open_deviation_classes": stats.get("open_classes", []),
+        "regressions_of_fixed_findings": regress,
         "steps_replayed": sum(len(h) for h in behaviours),
     }
     vlib.write_evidence(PROP, tier, seed, "model_checking", cov, time.time() - t0, len(bad), [
@@ -265,6 +326,13 @@ def replay(path, seed):
     r = res[0]
     if r.get("infra"):
         raise vlib.Infra(r["infra"])
+    open_ids = {f["id"] for f in vlib.load_known(PROP)}
+    fixed = fixed_findings()
+    for kid, ex in (r.get("known_ex") or {}).items():
+        if kid not in open_ids and r["ok"]:
+            r["ok"] = False
+            r["detail"] = (f"REGRESSION of the repaired finding {kid} (fixed by {fixed[kid]}): the real result equals the prediction "
+                           f"of its deviation model: " if kid in fixed else f"divergence attributed to {kid}, which is not an open finding: ") + ex
     if not r["ok"]:
         print(f"VIOLATION property={PROP} replay={path}")
         vlib.log(r["detail"][:3000])
